@@ -392,6 +392,7 @@ class TxnModel(object):
         self.pending = []
         self.has_e = pre.has_e
         self.removed_e = False
+        self.matched_deleted = 0
         self.lenient = lenient
 
     def _locate(self, op, undelete):
@@ -431,10 +432,14 @@ class TxnModel(object):
             name, arg = C.del_spec(op)
             pred = C.pred(name, arg)
             n = 0
+            self.matched_deleted = 0
             for d in self.docs:
-                if not d[3] and pred(d):
-                    d[3] = 1
-                    n += 1
+                if pred(d):
+                    if d[3]:
+                        self.matched_deleted += 1
+                    else:
+                        d[3] = 1
+                        n += 1
             return n, op
         if k == "ddoc":
             n, op = self._locate(op, False)
@@ -559,6 +564,9 @@ def run_txn(W, txn, pre, checks=True, lenient=False):
             if exp is not None:
                 if exp >= 2:
                     res.notes.append("ret_ge2")
+                if m.matched_deleted:
+                    # an already deleted document matches too: it must not be counted
+                    res.notes.append("ret_with_deleted_match")
                 if got != exp:
                     res.problems.append(("ret:" + op2[0],
                                          "count-high" if (got or 0) > exp else "count-low",
@@ -1052,7 +1060,7 @@ def sig_of(txn, api, kind, suffix=""):
     return "%s|%s|%s|%s%s" % ("+".join(kinds), txn["end"], api, kind, suffix)
 
 
-def shrink(cd, hist, api, kind, budget=80):
+def shrink(cd, hist, api, kind, budget=120):
     """Greedy delta debugging on the real code: drop earlier transactions,
     drop ops, simplify endings and texts while the same (api, kind) failure
     persists.  Returns (history, problem)."""
@@ -1125,16 +1133,64 @@ def shrink(cd, hist, api, kind, budget=80):
                     break
         if changed:
             continue
+        # canonical witness: rename a key / a text everywhere (doc-number ops
+        # carry the document they target, renamed along)
+        def renamed(h0, what, a, b):
+            out = []
+            for t in h0:
+                ops2 = []
+                for o in t["ops"]:
+                    o = list(o)
+                    if what == "kid":
+                        if o[0] in WRITE_KINDS and o[1] == a:
+                            o[1] = b
+                        elif o[0] in ("ddoc", "undel") and o[2] == a:
+                            o[2] = b
+                        elif o[0] == "dkey" and o[1] == a:
+                            o[1] = b
+                    else:
+                        if o[0] in WRITE_KINDS and o[2] == a:
+                            o[2] = b
+                        elif o[0] in ("ddoc", "undel") and o[3] == a:
+                            o[3] = b
+                    ops2.append(o)
+                out.append({"ops": ops2, "end": t["end"]})
+            return out
+        subs = []
+        if cd["name"] != "two":
+            kids = sorted(set(o[1] for t in h for o in t["ops"] if o[0] in WRITE_KINDS), reverse=True)
+            subs += [("kid", a, b) for a in kids for b in range(a)]
+        tis = sorted(set(o[2] for t in h for o in t["ops"] if o[0] in WRITE_KINDS), reverse=True)
+        subs += [("ti", a, 0) for a in tis if a != 0]
+        for what, a, b in subs:
+            h2 = renamed(h, what, a, b)
+            if h2 != h:
+                r = fails(h2)
+                if r:
+                    h, prob = r
+                    changed = True
+                    break
+        if changed:
+            continue
+        # smaller values: text 0, lower key numbers
         for i in range(len(h)):
             for j, o in enumerate(h[i]["ops"]):
-                if o[0] in WRITE_KINDS and o[2] != 0:
-                    o2 = [o[0], o[1], 0]
+                cands = []
+                if o[0] in WRITE_KINDS:
+                    if o[2] != 0:
+                        cands.append([o[0], o[1], 0])
+                    cands += [[o[0], k, o[2]] for k in range(o[1])]
+                elif o[0] in ("dkey", "dk2", "dtxt"):
+                    cands += [[o[0], k] for k in range(o[1])]
+                for o2 in cands:
                     t2 = {"ops": h[i]["ops"][:j] + [o2] + h[i]["ops"][j + 1:], "end": h[i]["end"]}
                     r = fails(h[:i] + [t2] + h[i + 1:])
                     if r:
                         h, prob = r
                         changed = True
                         break
+                if changed:
+                    break
             if changed:
                 break
     return h, prob
@@ -1451,8 +1507,8 @@ def plans(tier, seed):
     P.append({"id": "id/ram/deep", "cfg": cfg("id"), "root": [], "merged": True, "levels": [
         [B("core", [0, 1, 2], E5)],
         [B("core", [0, 1], E5), B("lite", [2], E3)],
-        [B("lite", [0, 1], E5)],
-        [B("slite", [0, 1], E2)]]})
+        [B("lite", [0, 1], E3)],
+        [B("slite", [0, 1], ["optimize", "cancel"])]]})
     P.append({"id": "id/ram/5seg", "cfg": cfg("id", ixmode="reopen"), "root": root5(), "levels": [
         [B("full", [0, 1], E6, ix=True), B("core", [2], MRG)],
         [B("core", [0, 1], E5)],
@@ -1460,8 +1516,7 @@ def plans(tier, seed):
     P.append({"id": "num/ram/deep", "cfg": cfg("num"), "root": [], "levels": [
         [B("full", [0, 1, 2], E6, ix=True)],
         [B("core", [0, 1], E5)],
-        [B("lite", [0, 1], E5)],
-        [B("slite", [0, 1], E2)]]})
+        [B("lite", [0, 1], E5)]]})
     P.append({"id": "num/ram/5seg", "cfg": cfg("num", ixmode="reopen"), "root": root5(), "levels": [
         [B("full", [0, 1], E6, ix=True)],
         [B("lite", [0, 1], E5)]]})
@@ -1481,8 +1536,7 @@ def plans(tier, seed):
     P.append({"id": "id/file/deep", "cfg": file_cfg, "root": [], "image": True, "levels": [
         [B("core", [0, 1, 2], E5)],
         [B("core", [0, 1], E5)],
-        [B("lite", [0, 1], E3)],
-        [B("slite", [0, 1], E2)]]})
+        [B("lite", [0, 1], E3)]]})
     P.append({"id": "id/file_nommap_loose/deep", "cfg": loose_cfg, "root": [], "image": True, "levels": [
         [B("core", [0, 1], E5), B("lite", [2], E3)],
         [B("lite", [0, 1], E5)],
@@ -1600,7 +1654,9 @@ def explore(ctx, plan, stats):
                              "transitions_with_violation": failed_tr,
                              "new_states_violating_invariant": bad})
         frontier = nxt
-        ctx.extra["max_depth"] = max(ctx.extra.get("max_depth", 0), depth + len(plan["root"]))
+        ctx.extra["max_depth"] = max(ctx.extra.get("max_depth", 0), depth)
+        ctx.extra["max_history_length"] = max(ctx.extra.get("max_history_length", 0),
+                                              depth + len(plan["root"]))
         if not frontier:
             break
     st["states"] = len(seen)
@@ -1624,20 +1680,23 @@ def run(ctx):
         "explicit-state BFS, one transition = one writer transaction on a real index; a transaction = "
         "0..n ops from the level's alphabet + one ending from {commit(merge=False), commit(), "
         "commit(optimize=True), cancel(), exception raised inside `with ix.writer()`, normal with-exit, "
-        "Index.delete_by_*/optimize convenience calls}; update_document at most once per unique value per "
-        "writer. Alphabets: full = add/update(3 keys x 3 texts) + delete_by_term(key field, each key) + "
-        "delete_by_term(text, each word) + delete_by_query(Or, Not, Every(), And, Every(field)) + "
-        "delete_document(every live doc number); core = 16 representative ops of the same kinds (first/last "
-        "live doc number); lite = 8; schema = add_field/remove_field (+1 op) transactions; undel = "
-        "delete_document(n, delete=False). Per-level caps (ops per transaction x alphabet x endings) are "
-        "listed in coverage.plan_levels; every transaction inside those caps is executed from every "
-        "distinct state of the previous level. States are merged by the canonical dump of the real index "
-        "(per segment: (key, text, extra-field flag, deleted?) per doc number, stale removed-field data, "
-        "schema field names); the read-API invariant is evaluated once in every distinct state, the "
-        "transition checks (delete_by_* return values, cancel/exception leave dump + generation + lock "
-        "untouched) on every transition. States violating the invariant are reported and not expanded. "
-        "evaluations = transitions; distinct_nontrivial = distinct states with a deleted document or more "
-        "than one segment.")
+        "Index.delete_by_term/delete_by_query/optimize convenience calls}; update_document at most once per "
+        "unique value per writer. Alphabets: full = add/update(3 keys x 3 texts) + delete_by_term(key field, "
+        "each key) + delete_by_term(text, each word) + delete_by_query(Or, Not, Every(), And, Every(field)) + "
+        "delete_document(every live doc number) [two unique fields: update over 4 (key,k2) pairs sharing "
+        "values, no duplicate-creating adds]; core = 16 representative ops of the same kinds (first/last live "
+        "doc number); lite = 8; tri = 6; slite = 3; schema = add_field/remove_field (+1 op) transactions; "
+        "undel = delete_document(n, delete=False). Caps: coverage.plan_levels lists, per plan and BFS level, "
+        "the blocks (alphabet x ops per transaction x endings); every transaction inside a block is executed "
+        "from every distinct state of the previous level (quick: full alphabet with 0-2 ops complete to "
+        "depth 1 and 0-1 ops + 2 ops over lite to depth 2; core/lite alphabets with 0-1 ops to depth 3; "
+        "thorough: depth 4-5). Start states: empty index and a 5-segment index with deletions. States are "
+        "merged by the canonical dump of the real index (per segment: (key, text, extra-field flag, deleted?) "
+        "per doc number, stale removed-field data, schema field names); the read-API invariant is evaluated "
+        "once in every distinct state, the transition checks (writer.is_deleted after every op, delete_by_* "
+        "return values, cancel/exception leave dump + generation + lock untouched and a new writer opens) on "
+        "every transition. Transitions/states violating a check are reported and not expanded. evaluations = "
+        "transitions; distinct_nontrivial = distinct states with a deleted document or more than one segment.")
     ctx.extra["plan_levels"] = dict((p["id"], {"root_transactions": len(p["root"]), "levels": p["levels"]})
                                     for p in ps)
     ctx.assumptions = [
@@ -1660,7 +1719,7 @@ def run(ctx):
     c = ctx.counters
     # vacuity guards
     need = ["transitions", "states", "aborts_checked_unchanged", "aborts_with_pending_deletions",
-            "ret_ge2", "merge_small_engaged", "states_under_update_discipline", "merged_history_variants",
+            "ret_ge2", "ret_with_deleted_match", "states_checked", "merge_small_engaged", "states_under_update_discipline", "merged_history_variants",
             "ops_ddoc", "ops_upd", "ops_dq", "ops_addf", "ops_rmf"]
     missing = [k for k in need if not c.get(k)]
     if only:
